@@ -253,3 +253,1337 @@ def _x_load_cases(rng, n, tier):
 
 base.register(base.Family("load_denote_x", ["C02", "C15"], _x_load_cases, FL.check_script, weight=0.1, bound="3 names x 3 program types",
                           rule="array named p<digits> in a non-tdm program is passed by value"))
+
+
+# =====================================================================================================================
+# Second round of extra input classes (seeded changes whose violation was reported without a concrete failing input).
+# Same rule as above: the oracles are the property statements; only the inputs are new.  Every generator below cycles through
+# its classes by case index, so that even the smallest quick-tier share (8 cases) meets every class at least once.
+#
+#  * decl_types_y   (C05): ragged arrays whose element count still fills a rows x columns grid; arrays WITH template parameters:
+#                    numbers written in a narrower form than the declared type, arrays made of bare parameters only, read back
+#                    element by element (kind, value, position), through A[k] and after instantiation.
+
+def _y_cell_text(rng, ty, narrow):
+    """(text, value) of one numeric array cell of declared type ty; narrow = written in a narrower form than ty"""
+    if ty == "int" or (narrow and (ty == "float" or rng.random() < 0.5)):
+        v = rng.randint(-9, 40)
+        return str(v), v
+    if ty == "float" or narrow:
+        v = rng.choice([round(rng.uniform(-9, 9), rng.choice([1, 2, 3])), rng.randint(1, 9) * 10.0 ** rng.randint(-4, 5)])
+        return repr(v), v
+    re_, im = rng.randint(0, 9), rng.randint(1, 9)
+    sgn = rng.choice("+-")
+    return "%d%s%dj" % (re_, sgn, im), complex(re_, im if sgn == "+" else -im)
+
+
+def _y_ragged(rng):
+    ty = rng.choice(["int", "float", "complex"])
+    while True:
+        r, c = rng.randint(2, 4), rng.randint(1, 4)
+        lens = [c] + [rng.randint(1, 5) for _ in range(r - 1)]
+        if len(set(lens)) > 1 and sum(lens) == r * c:
+            break
+    name = rng.choice(["A", "M_1", "Arr", "B2", "w"])
+    par_at = (rng.randrange(r), None) if rng.random() < 0.25 else None
+    rows = []
+    for i, n in enumerate(lens):
+        cells = [_y_cell_text(rng, ty, rng.random() < 0.3)[0] for _ in range(n)]
+        if par_at and par_at[0] == i:
+            cells[rng.randrange(n)] = "{%s}" % rng.choice(["a", "p_1", "Theta"])
+        rows.append("    " + ", ".join(cells))
+    shape = "[%d, %d]" % (r, c) if rng.random() < 0.4 else ""
+    lines = ["name %s" % rng.choice(["t", "prog", "ragged_1"]), "version 1.0", "", "%s array %s%s =" % (ty, name, shape)] + rows
+    if rng.random() < 0.5:
+        lines += ["", "G(%s[0]) | 0" % name]
+    return {"class": "neg/ragged-rows-filling-the-grid" + ("/with-parameter" if par_at else ""),
+            "input": {"script": "\n".join(lines) + "\n", "expected": {"error": "any"}, "note": "row lengths %r: %d elements = %d x %d" % (lens, sum(lens), r, c)}}
+
+
+def _y_tarray(rng, variant):
+    """array with bare template parameters among (or as all of) its elements"""
+    ty = rng.choice(["float", "float", "complex"]) if variant == "narrow-literals" else rng.choice(["int", "float", "complex"])
+    nr, nc = rng.randint(1, 3), rng.randint(1, 4)
+    if nr * nc < 2:
+        nc = rng.randint(2, 4)
+    cells = [(i, j) for i in range(nr) for j in range(nc)]
+    pool = rng.sample(["a", "b", "ab", "x_1", "Theta", "p1", "gam", "E"], rng.randint(2, 4))
+    if variant == "all-bare-parameters":
+        where = {c: pool[k % len(pool)] if k < len(pool) or rng.random() < 0.6 else rng.choice(pool) for k, c in enumerate(cells)}
+    else:
+        where = {c: rng.choice(pool) for c in rng.sample(cells, rng.randint(1, min(3, len(cells) - 1)))}
+    rows_t, grid = [], []
+    for i in range(nr):
+        rt, rg = [], []
+        for j in range(nc):
+            if (i, j) in where:
+                rt.append("{%s}" % where[(i, j)])
+                rg.append({"par": where[(i, j)]})
+            else:
+                t, v = _y_cell_text(rng, ty, variant == "narrow-literals" or rng.random() < 0.3)
+                rt.append(t)
+                rg.append({"num": FS.G.enc(v)})
+        rows_t.append(rt)
+        grid.append(rg)
+    name = rng.choice(["A", "M_1", "Arr", "B2", "w"])
+    lines = ["name %s" % rng.choice(["t", "tmpl", "prog_2"]), "version 1.0", ""] + FS.G.array_decl(ty, name, rows_t, shape=rng.random() < 0.4) + [""]
+    reads = sorted(rng.sample(range(nr * nc), min(nr * nc, rng.randint(1, 4))))
+    op = rng.choice(["G", "Dgate", "Sgate"])
+    if rng.random() < 0.5:
+        lines.append("%s(%s) | 0" % (op, ", ".join("%s[%d]" % (name, k) for k in reads)))
+        read_ops = [reads]
+    else:
+        lines += ["%s(%s[%d]) | %d" % (op, name, k, n) for n, k in enumerate(reads)]
+        read_ops = [[k] for k in reads]
+    used = sorted({w for w in where.values()})
+    vals = {}
+    for p in used:
+        vals[p] = rng.randint(-20, 20) if ty == "int" else round(rng.uniform(-5, 5), 3) if ty == "float" else complex(rng.randint(-3, 3), rng.randint(1, 4))
+    return {"class": "template-array/" + variant, "input": {"script": "\n".join(lines) + "\n", "tarray": {"name": name, "type": ty, "grid": grid, "reads": read_ops,
+                                                                                                         "values": {k: FS.G.enc(v) for k, v in vals.items()}}}}
+
+
+def _y_decl_cases(rng, n, tier):
+    for i in range(n):
+        k = i % 4
+        if k == 0:
+            yield _y_ragged(rng)
+        else:
+            yield _y_tarray(rng, ["narrow-literals", "all-bare-parameters", "mixed"][k - 1])
+
+
+def _y_decl_check(case):
+    import numpy as np
+    import sympy as sym
+    import blackbird
+    i = case["input"]
+    if "tarray" not in i:
+        return FL.check_script(case)
+    t = i["tarray"]
+    ty, grid, name = t["type"], t["grid"], t["name"]
+    nr, nc = len(grid), len(grid[0])
+    try:
+        p = blackbird.loads(i["script"])
+    except Exception as e:
+        return {"expected": "the declaration is valid (bare template parameters are allowed as array elements): the script loads", "actual": base.describe_exc(e)}
+
+    def cell_diff(x, d, where):
+        if "par" in d:
+            if not (isinstance(x, sym.Symbol) and str(x) == d["par"]):
+                return {"expected": "%s is the template parameter %s" % (where, d["par"]), "actual": "%r (%s)" % (x, type(x).__name__)}
+            return None
+        want = FS.G.dec(d["num"])
+        if isinstance(x, sym.Expr) or base.kind(x) != ty or complex(x) != complex(want):
+            return {"expected": "%s is the %s %r" % (where, ty, {"int": int, "float": float, "complex": complex}[ty](want)),
+                    "actual": "%r (%s)" % (x, base.kind(x))}
+        return None
+    a = p.variables.get(name)
+    if not isinstance(a, np.ndarray) or a.ndim != 2 or a.shape != (nr, nc):
+        return {"expected": "variable %s is a two-dimensional array of shape %r" % (name, (nr, nc)),
+                "actual": "%r" % (a if not isinstance(a, np.ndarray) else (a.shape, a.tolist()),)}
+    for r in range(nr):
+        for c in range(nc):
+            res = cell_diff(a[r, c], grid[r][c], "element (%d, %d) of %s" % (r, c, name))
+            if res:
+                return res
+    pars = {d["par"] for row in grid for d in row if "par" in d}
+    if set(p.parameters) != pars:
+        return {"expected": "free parameters %r" % sorted(pars), "actual": "%r" % sorted(p.parameters)}
+    flat = [d for row in grid for d in row]
+    if len(p.operations) != len(t["reads"]):
+        return {"expected": "%d operations" % len(t["reads"]), "actual": repr(p.operations)}
+    for o, ks in zip(p.operations, t["reads"]):
+        if len(o["args"]) != len(ks):
+            return {"expected": "%d arguments" % len(ks), "actual": repr(o)}
+        for x, k in zip(o["args"], ks):
+            res = cell_diff(x, flat[k], "%s[%d] (row-major)" % (name, k))
+            if res:
+                return res
+    vals = {k: FS.G.dec(v) for k, v in t["values"].items()}
+    try:
+        q = p(**vals)
+    except Exception as e:
+        return {"expected": "instantiation with %r succeeds" % vals, "actual": base.describe_exc(e)}
+    b = q.variables.get(name)
+    kindch = {"int": "i", "float": "f", "complex": "c"}[ty]
+    if not isinstance(b, np.ndarray) or b.shape != (nr, nc) or b.dtype.kind != kindch:
+        return {"expected": "after instantiation %s is a %s array of shape %r" % (name, ty, (nr, nc)),
+                "actual": "%r" % (b if not isinstance(b, np.ndarray) else (str(b.dtype), b.shape, b.tolist()),)}
+    for r in range(nr):
+        for c in range(nc):
+            d = grid[r][c]
+            want = vals[d["par"]] if "par" in d else FS.G.dec(d["num"])
+            if complex(b[r, c]) != complex(want):
+                return {"expected": "after instantiation element (%d, %d) of %s is %r" % (r, c, name, want), "actual": repr(b.tolist())}
+    return None
+
+
+base.register(base.Family("decl_types_y", ["C05"], _y_decl_cases, _y_decl_check, weight=0.12,
+                          bound="arrays up to 4 rows x 5 columns; 1 ragged class, 3 parameterised classes, cycled",
+                          rule="ragged rows whose total still equals rows x len(first row) must be rejected; arrays with bare {p} elements: element (r, c) "
+                               "is the c-th entry of the r-th written row (parameters as symbols, numbers with the declared type), A[k] row-major, "
+                               "declared type and shape kept by the instance"))
+
+
+#  * expr_value_y   (C03): integer literals between 2**53 and 2**63 that no double represents exactly, as an argument, in differences and
+#                    products whose exact value is small, through an int variable and through an int array element.
+
+def _y_bigint(rng):
+    while True:
+        n = rng.randrange(2 ** 53 + 1, 2 ** 63 - 1) if rng.random() < 0.7 else 2 ** rng.randint(53, 62) + rng.randint(1, 99)
+        if int(float(n)) != n:
+            return n
+
+
+def _y_expr_cases(rng, n, tier):
+    none = {"name": None, "options": []}
+    for i in range(n):
+        N = _y_bigint(rng)
+        d = rng.randint(1, 9)
+        M = N - d
+        k = rng.randint(2, 7)
+        q, r = divmod(N, k)
+        shape = i % 6
+        decl, variables = "", []
+        if shape == 0:
+            cls, text, val = "literal", str(N), N
+        elif shape == 1:
+            cls, text, val = "difference-of-literals", "%d - %d" % (N, M), d
+        elif shape == 2:
+            cls, text, val = "product-and-difference", "%d - %d*%d" % (N, k, q), r
+        elif shape == 3:
+            cls, text, val = "via-int-variable", "big - %d" % M, d
+            decl, variables = "int big = %d\n" % N, [["big", N]]
+        elif shape == 4:
+            cls, text, val = "via-int-array-element", "B[1] - B[0]", d
+            decl, variables = "int array B =\n    %d, %d\n" % (M, N), [["B", {"arr": {"dtype": "int", "rows": [[M, N]]}}]]
+        else:
+            cls, text, val = "sum-below-2**63", "%d + %d" % (N // 2, d), N // 2 + d
+        slot = ["G(%s) | 0", "G(1, %s) | 0", "G(phi=%s) | 0"][rng.randrange(3)] % text
+        args, kwargs = ([val], []) if "phi=" not in slot else ([], [["phi", val]])
+        if slot.startswith("G(1, "):
+            args = [1, val]
+        script = "name t\nversion 1.0\n\n%s%s\n" % (decl, slot)
+        exp = {"name": "t", "version": "1.0", "target": none, "type": none, "operations": [{"op": "G", "modes": [0], "args": args, "kwargs": kwargs}],
+               "variables": variables}
+        yield {"class": "int-literal-above-2**53/" + cls, "input": {"script": script, "expected": exp, "expression": text}}
+
+
+base.register(base.Family("expr_value_y", ["C03"], _y_expr_cases, FL.check_script, weight=0.08, bound="6 shapes x random 54..63-bit integers",
+                          rule="integer literals within int64 that are not exactly representable as a double denote themselves; + - * on them stay exact integers"))
+
+
+#  * forloop_unroll_x (C06): value lists of MIXED kinds -- at least one value of the loop type next to a value of another kind (number or
+#                    bool in a str loop, string in an int/float loop, ...) must be refused; an int loop listing integers above 2**53 next to
+#                    an integral float runs with exactly the written integers.
+
+def _x_loop_cases(rng, n, tier):
+    none = {"name": None, "options": []}
+    strs = ['"one"', '"a b"', '"x"', '"2"', '""', '"True"']
+    for i in range(n):
+        var = rng.choice(["s", "i", "k", "mm", "idx"])
+        style = rng.choice(["[%s]", "[%s]", "(%s)", "%s"])
+        if i % 3 != 2:
+            lt = ["str", "str", "int", "float", "str", "bool"][(i // 3) % 6] if i % 3 == 0 else rng.choice(["str", "str", "int", "float"])
+            good = {"str": lambda: rng.choice(strs), "int": lambda: str(rng.randint(0, 9)), "float": lambda: "%d.%d" % (rng.randint(0, 9), rng.randint(1, 9)),
+                    "bool": lambda: rng.choice(["True", "False"])}[lt]
+            bads = {"str": ["2", "3.5", "True", "0", "1j"], "int": ['"two"', '"2"', "2.5"], "float": ['"x"', '"1.5"', "2j"], "bool": ['"yes"', '"True"', "2"]}[lt]
+            items = [good() for _ in range(rng.randint(1, 3))]
+            bad = rng.choice(bads)
+            items.insert(rng.randint(0, len(items)), bad)
+            body = "    G(%s) | 0" % var if lt != "int" or rng.random() < 0.5 else "    G | %s" % var
+            lines = ["name t", "version 1.0", "", "for %s %s in %s" % (lt, var, style % ", ".join(items)), body]
+            if rng.random() < 0.5:
+                lines.append("Vac | 1")
+            kind = "string" if bad.startswith('"') else "complex" if bad.endswith("j") else "bool" if bad in ("True", "False") else "number"
+            yield {"class": "refuse/mixed-kinds/%s-in-%s-loop" % (kind, lt), "input": {"script": "\n".join(lines) + "\n", "expected": {"error": "any"}}}
+        else:
+            bigs = [_y_bigint(rng) for _ in range(rng.randint(1, 2))]
+            fl = rng.randint(0, 9)
+            vals = [(str(b), b) for b in bigs] + [("%d.0" % fl, fl)]
+            rng.shuffle(vals)
+            use = rng.choice(["G(%s) | 0", "G(1, %s) | 0", "G(%s - 3) | 0"])
+            off = -3 if "- 3" in use else 0
+            lines = ["name t", "version 1.0", "", "for int %s in %s" % (var, style % ", ".join(t for t, _v in vals)), "    " + use % var, "Vac | 1"]
+            unrolled = ["name t", "version 1.0", ""] + [use % str(v) for _t, v in vals] + ["Vac | 1"]
+            ops = [{"op": "G", "modes": [0], "args": ([1] if use.startswith("G(1,") else []) + [v + off], "kwargs": []} for _t, v in vals] + [{"op": "Vac", "modes": [1]}]
+            exp = {"name": "t", "version": "1.0", "target": none, "type": none, "operations": ops, "variables": []}
+            yield {"class": "list-int/above-2**53-next-to-integral-float", "input": {"script": "\n".join(lines) + "\n", "unrolled": "\n".join(unrolled) + "\n", "expected": exp}}
+
+
+base.register(base.Family("forloop_unroll_x", ["C06"], _x_loop_cases, FL.check_forloop, weight=0.1, bound="lists of 2-4 values, 3 bracket styles",
+                          rule="a listed value that is not of the loop type is refused also when other values are; converted values are the written ones exactly"))
+
+
+#  * regref_transform_x (C08): statements INSIDE a for loop whose measured-register arguments also use the loop variable (coefficient, divisor,
+#                    exponent), positional and keyword, next to register arguments outside the loop and loop-variable arguments without registers.
+
+def _x_subst_var(ast, name, lit):
+    if not isinstance(ast, list):
+        return ast
+    if ast[0] == "var" and ast[1] == name:
+        return ["num", lit]
+    return [ast[0]] + [_x_subst_var(c, name, lit) for c in ast[1:]]
+
+
+def _x_rr_build(rng):
+    G = FS.G
+    lines = G.header(rng)
+    numvars = {}
+    for vn, ty in rng.sample([("x", "float"), ("n", "int"), ("gain", "float")], rng.randint(0, 2)):
+        numvars[vn] = rng.choice([2, 3, 4]) if ty == "int" else rng.choice([0.5, 1.25, 2.5])
+        lines.append("%s %s = %s" % (ty, vn, G.fmt_num(numvars[vn])))
+    ops = []
+    pool = rng.sample(FS._REG_POOL[:10], rng.randint(2, 4))
+    if rng.random() < 0.6:
+        for r in pool:
+            lines.append("%s | %d" % (rng.choice(["MeasureX", "MeasureP", "MeasureHomodyne"]), r))
+            ops.append({"args": [], "kwargs": {}, "noargs": True})
+
+    def rrt(ast, regs, env=None):
+        pts = FS._rr_points(rng, ast, regs, dict(numvars, **(env or {})))
+        if len(pts) < 2:
+            raise G.Unfit("no well-conditioned measurement points")
+        return {"t": "rrt", "ast": ast, "regs": sorted(regs), "meas": pts}
+
+    def outside():
+        regs = rng.sample(pool, rng.randint(1, min(3, len(pool))))
+        ast = FS._rr_expr(rng, regs, numvars)
+        lines.append(G.call_text(rng.choice(G.OPS), [G.show(ast)], [], str(rng.choice([20, 21]))))
+        ops.append({"args": [rrt(ast, regs)], "kwargs": {}})
+    if rng.random() < 0.5:
+        outside()
+    lv = rng.choice(["i", "k", "m2", "idx"])
+    if rng.random() < 0.75:
+        a0 = rng.randint(1, 3)
+        vals = list(range(a0, a0 + rng.randint(2, 4)))
+        head = "for int %s in %d:%d" % (lv, vals[0], vals[-1] + 1) if rng.random() < 0.6 else "for int %s in [%s]" % (lv, ", ".join(map(str, vals)))
+        lits = [str(v) for v in vals]
+    else:
+        vals = rng.sample([0.5, 1.5, 2.0, 0.25, 3.5], rng.randint(2, 3))
+        head = "for float %s in [%s]" % (lv, ", ".join(repr(v) for v in vals))
+        lits = [repr(v) for v in vals]
+    body = []
+    for _ in range(rng.randint(1, 2)):
+        pos, kw = [], []
+        for ai in range(rng.randint(1, 3)):
+            r = rng.random()
+            if ai == 0 or r < 0.6:
+                regs = rng.sample(pool, rng.randint(1, min(3, len(pool))))
+                inner = FS._rr_expr(rng, regs, numvars)
+                L = ["var", lv]
+                how = rng.choice(["coef", "coef", "sum", "div", "pow", "coef-of-one"])
+                if how == "coef":
+                    ast = ["mul", L, ["br", inner]] if inner[0] in ("add", "sub", "neg") else ["mul", L, inner]
+                elif how == "sum":
+                    ast = ["add", ["mul", L, ["reg", regs[0]]], inner]
+                elif how == "div":
+                    ast = ["div", ["br", inner], L]
+                elif how == "pow":
+                    ast = ["add", ["pow", ["reg", regs[0]], L], inner] if all(isinstance(v, int) for v in vals) else ["mul", L, ["br", inner]]
+                else:
+                    ast = ["sub", inner, ["mul", ["reg", regs[-1]], L]]
+                d = ("rrt", ast, regs)
+            elif r < 0.8:
+                ast = rng.choice([["var", lv], ["mul", ["var", lv], ["num", "2"]], ["add", ["var", lv], ["num", "0.5"]]])
+                d = ("num", ast, None)
+            else:
+                ast = ["num", G.number_text(rng)]
+                d = ("num", ast, None)
+            if ai > 0 and (kw or rng.random() < 0.4):
+                kw.append(("k%d" % ai if rng.random() < 0.5 else G.KWNAMES[ai], d))
+            else:
+                pos.append(d)
+        mode = lv if (rng.random() < 0.4 and all(isinstance(v, int) for v in vals)) else str(rng.choice([20, 21, 22]))
+        body.append((G.call_text(rng.choice(G.OPS), [G.show(d[1]) for d in pos], [(k, G.show(d[1])) for k, d in kw], mode), pos, kw))
+    lines.append(head)
+    lines += ["    " + t for t, _p, _k in body]
+    for v, lit in zip(vals, lits):
+        for _t, pos, kw in body:
+            def conc(d):
+                ast = _x_subst_var(d[1], lv, lit)
+                return rrt(ast, d[2]) if d[0] == "rrt" else {"t": "num", "ast": ast}
+            ops.append({"args": [conc(d) for d in pos], "kwargs": {k: conc(d) for k, d in kw}})
+    if rng.random() < 0.4:
+        outside()
+    return {"class": "loop/register-argument-uses-loop-variable/" + ("int" if isinstance(vals[0], int) else "float"),
+            "input": {"script": "\n".join(lines) + "\n", "ops": ops, "vars": numvars}}
+
+
+def _x_rr_cases(rng, n, tier):
+    out = 0
+    while out < n:
+        try:
+            c = _x_rr_build(rng)
+        except FS.G.Unfit:
+            continue
+        out += 1
+        yield c
+
+
+base.register(base.Family("regref_transform_x", ["C08"], _x_rr_cases, FS._rr_check, weight=0.1, bound="loops of 2-4 values, bodies of 1-2 statements, 1-3 registers per argument",
+                          rule="textual unrolling: in iteration v the transform computes the written formula with the loop variable replaced by v; oracle of regref_transform"))
+
+
+#  * roundtrip_y    (C01): array arguments that are different arrays with identical memory contents (same data in another shape, all-zero
+#                    arrays of another element type); zeros of both signs (float, real and imaginary parts) in one script.
+#  * api_serialize_x (C09): SymPy arguments that contain the constant pi next to a parameter whose name is a prefix of "pi" (p), in
+#                    positional / keyword / list / option position.
+
+def _y_rt_cases(rng, n, tier):
+    def decl(ty, name, rows, shape):
+        def t(x):
+            return str(x) if ty == "int" else repr(float(x)) if ty == "float" else "%s+%sj" % (repr(float(x.real)), repr(float(x.imag)))
+        return ["%s array %s%s =" % (ty, name, "[%d, %d]" % (len(rows), len(rows[0])) if shape else "")] + ["    " + ", ".join(t(x) for x in r) for r in rows]
+    for i in range(n):
+        lines = ["name %s" % rng.choice(["prog", "t", "rt_2"]), "version 1.0", ""]
+        if i % 3 != 2:
+            if i % 3 == 0:
+                m = rng.choice([2, 3, 4, 6])
+                ty = rng.choice(["float", "int", "complex"])
+                data = [rng.randint(-9, 9) if ty == "int" else round(rng.uniform(-4, 4), 2) if ty == "float" else complex(rng.randint(-3, 3), rng.randint(1, 5))
+                        for _ in range(m)]
+                shapes = rng.sample([(a, m // a) for a in range(1, m + 1) if m % a == 0], 2)
+                arrs = [(ty, [data[r * c:(r + 1) * c] for r in range(nr)]) for nr, c in shapes]
+                cls = "arrays/same-data-different-shape"
+            else:
+                nr, nc = rng.choice([(1, 2), (2, 2), (2, 3), (1, 4)])
+                tys = rng.sample(["int", "float"], 2)
+                arrs = [(t, [[0] * nc for _ in range(nr)]) for t in tys]
+                if rng.random() < 0.3:
+                    arrs.append(("complex", [[0j] * (nc // 2) for _ in range(nr)]) if nc % 2 == 0 else ("float", [[0] * nr for _ in range(nc)]))
+                cls = "arrays/all-zero-different-type"
+            names = rng.sample(["A", "B", "M", "U", "Zr"], len(arrs))
+            for nm, (ty, rows) in zip(names, arrs):
+                lines += decl(ty, nm, rows, rng.random() < 0.5)
+            lines.append("")
+            uses = list(names) + [rng.choice(names) for _ in range(rng.randint(0, 2))]
+            rng.shuffle(uses)
+            while uses:
+                k = rng.randint(1, min(2, len(uses)))
+                part, uses = uses[:k], uses[k:]
+                if len(part) == 2 and rng.random() < 0.6:
+                    lines.append("%s(%s, %s=%s) | [0, 1]" % (rng.choice(["Prepare", "Gaussian", "Interferometer"]), part[0], rng.choice(["means", "adj", "U"]), part[1]))
+                elif rng.random() < 0.3:
+                    lines.append("%s(%s) | 0" % (rng.choice(["Graph", "G"]), ", ".join("%s=%s" % (kw, a) for kw, a in zip(["adj", "cov"], part))))
+                else:
+                    lines.append("%s(%s) | [0, 1]" % (rng.choice(["Prepare", "Gaussian"]), ", ".join(part)))
+        else:
+            cls = "zeros-of-both-signs"
+            pool = ["0.0", "-0.0", "0.0+1j", "-0.0+1j", "1-0.0j", "1+0.0j", "-0.0-0.0j", "0.0", "-0.0", "2.5"]
+            for _ in range(rng.randint(1, 3)):
+                vals = list(rng.choice([("0.0", "-0.0"), ("-0.0", "0.0"), ("1+0.0j", "1-0.0j"), ("1-0.0j", "1+0.0j"), ("0.0+1j", "-0.0+1j"), ("-0.0+1j", "0.0+1j")]))
+                vals += [rng.choice(pool) for _ in range(rng.randint(0, 2))]                 # both signs of one zero in every statement
+                kw = rng.random() < 0.5
+                lines.append("%s(%s%s) | %d" % (rng.choice(["Rgate", "Dgate", "G"]), ", ".join(vals[:-1] if kw else vals), ", phi=%s" % vals[-1] if kw else "", rng.randint(0, 3)))
+        yield {"class": cls, "input": {"script": "\n".join(lines) + "\n"}}
+
+
+def _y_rt_check(case):
+    import blackbird
+    from . import fam_prog as FP
+    res = FP.rt_check(case)
+    if res is not None:
+        return res
+    p = blackbird.loads(case["input"]["script"])
+    t = blackbird.dumps(p)
+    q = blackbird.loads(t)
+    for (w, a), (_w, b) in zip(FP._values_of(p), FP._values_of(q)):
+        z = FP._zero_sign_diff(a, b)
+        if z:
+            return {"class": "negative-zero/" + sorted(z)[0], "expected": "%s comes back exactly (sign of zero): %r" % (w, a), "actual": "%r; text:\n%s" % (b, t)}
+    return None
+
+
+base.register(base.Family("roundtrip_y", ["C01"], _y_rt_cases, _y_rt_check, weight=0.1, bound="2-3 arrays of <= 6 elements; 1-3 statements of signed zeros",
+                          rule="oracle of roundtrip (arrays come back with their own shape, element type and elements); numbers come back exactly incl. the sign of zero"))
+
+
+def _x_api_cases(rng, n, tier):
+    forms = ["pi*P0/4", "P0*pi + P1", "pi*(P0 - P1)", "P0**2*pi", "2*pi*P0*P1", "P0/pi", "pi - P0", "P1*(P0 + pi)/3"]
+    for i in range(n):
+        others = rng.sample(["theta", "p1", "pp", "x", "a", "phi", "pix"], rng.randint(0, 2))
+        def symv():
+            f = rng.choice(forms if others else [f for f in forms if "P1" not in f])
+            o = rng.choice(others) if others else None
+            return {"kind": "sym", "expr": f.replace("P0", "p").replace("P1", o or ""), "params": sorted({"p"} | ({o} if (o and "P1" in f) else set()))}
+        where = ["arg", "kw", "list", "option"][i % 4]
+        used = set()
+        def note(s):
+            used.update(s["params"])
+            return s
+        rec = {"name": rng.choice(["prog", "Main", "a"]), "version": "1.0", "target": None, "type": None, "ops": [], "params": []}
+        plain = lambda: {"kind": "float", "repr": repr(round(rng.uniform(-3, 3), 2))}
+        op = {"op": rng.choice(["Rgate", "BSgate", "Dgate", "G"]), "modes": rng.sample(range(6), rng.randint(1, 2)), "args": [plain() for _ in range(rng.randint(0, 2))], "kwargs": []}
+        if where == "arg":
+            op["args"].insert(rng.randint(0, len(op["args"])), note(symv()))
+            if rng.random() < 0.5:
+                op["kwargs"].append(["phi", note(symv())])
+        elif where == "kw":
+            op["kwargs"].append([rng.choice(["phi", "k", "r"]), note(symv())])
+        elif where == "list":
+            op["kwargs"].append(["opt", {"kind": "list", "items": [plain(), note(symv())] + ([note(symv())] if rng.random() < 0.5 else [])}])
+        else:
+            rec["target"] = {"name": rng.choice(["X8_01", "gaussian"]), "options": [["shots", {"kind": "int", "v": 10}], ["phi", note(symv())]]}
+            op["args"].append(note(symv()))
+        rec["ops"].append(op)
+        if rng.random() < 0.4:
+            rec["ops"].append({"op": "Vac", "modes": [7], "args": None})
+        rec["params"] = sorted(used)
+        yield {"class": "sym-pi/parameter-name-prefix-of-pi/" + where, "input": {"recipe": rec}}
+
+
+def _x_api_check(case):
+    from . import fam_prog as FP
+    return FP.api_check(case)
+
+
+base.register(base.Family("api_serialize_x", ["C09"], _x_api_cases, _x_api_check, weight=0.08, bound="8 forms x 4 positions, parameter p next to 0-2 others",
+                          rule="oracle of api_serialize: the serialised script is accepted and denotes the same program (symbolic values equal as expressions)"))
+
+
+#  * syntax_errors_x (C10): one fault placed directly in a STATEMENT, for every statement kind (gate / Measure..., with and without arguments,
+#                    keyword arguments) x every fault around the '|' and the modes, at top level, inside a for loop and after declarations.
+
+def _x_syn_cases(rng, n, tier):
+    meas = ["MeasureX", "MeasureFock", "MeasureHomodyne", "Measure", "MeasureHD", "MeasureP", "MeasureThreshold"]
+    gates = ["Sgate", "Vac", "BSgate", "op_1", "G"]
+    faults = ["pipe-missing", "pipe-doubled", "pipe-replaced", "modes-missing", "cut-after-name", "cut-after-arguments", "modes-unclosed", "name-doubled",
+              "token-before-pipe"]
+    kinds = ["measure", "measure-call", "measure-kwargs", "gate", "gate-call", "measure", "measure-call"]
+    for i in range(n):
+        kind = kinds[i % len(kinds)]
+        fault = faults[(i // len(kinds) + i) % len(faults)]
+        name = rng.choice(meas if kind.startswith("measure") else gates)
+        args = {"measure": "", "gate": "", "measure-call": rng.choice(["()", "(0.5)"]), "gate-call": rng.choice(["(0.1)", "(0.4, 2)"]),
+                "measure-kwargs": rng.choice(["(phi=0.5)", "(select=1, phi=pi/2)", "(0.1, select=q1)"])}[kind]
+        modes = rng.choice(["0", "[0, 1]", "(2, 3)", "1, 2"])
+        ctx = ["top", "loop", "after-declarations", "between-statements"][rng.randrange(4)]
+        good = "%s%s | %s" % (name, args, modes)
+        bad = {"pipe-missing": "%s%s %s" % (name, args, modes),
+               "pipe-doubled": "%s%s | | %s" % (name, args, modes),
+               "pipe-replaced": "%s%s %s %s" % (name, args, rng.choice(["=", ":", "-", "in", "/"]), modes),
+               "modes-missing": "%s%s |" % (name, args),
+               "cut-after-name": name,
+               "cut-after-arguments": "%s%s" % (name, args or "()"),
+               "modes-unclosed": "%s%s | [0, 1" % (name, args),
+               "name-doubled": "%s %s%s | %s" % (name, name, args, modes),
+               "token-before-pipe": "%s%s %s | %s" % (name, args, rng.choice(["1", "x", '"s"', "True"]), modes)}[fault]
+        head = "name %s\nversion 1.0\n" % rng.choice(["t", "prog_1"])
+        if ctx == "after-declarations":
+            head += "\nfloat alpha = 0.5\nint array B =\n    1, 2\n\n"
+        elif ctx == "between-statements":
+            head += "Sgate(0.1) | 0\n"
+        tail = "Vac | 3\n" if ctx == "between-statements" or rng.random() < 0.4 else ""
+        if fault.startswith("cut") and rng.random() < 0.5:
+            tail = ""
+        ind = ""
+        if ctx == "loop":
+            head += "for int i in 0:2\n"
+            ind = "    "
+            if rng.random() < 0.5:
+                head += "    Rgate(i) | i\n"
+        nl = "" if (not tail and rng.random() < 0.3) else "\n"
+        yield {"class": "statement-fault|%s|%s|%s" % (kind, fault, ctx),
+               "input": {"text": head + ind + bad + nl + tail, "base": head + ind + good + "\n" + tail}}
+
+
+base.register(base.Family("syntax_errors_x", ["C10"], _x_syn_cases, FS._syn_check, weight=0.1, bound="5 statement kinds x 9 faults x 4 contexts",
+                          rule="oracle of syntax_errors: BlackbirdSyntaxError (no other type) at the line/column of the first parser report, not before the edit"))
+
+
+#  * include_y      (C11): ill-formed CALLS of an included program: every template parameter given plus one more keyword (scalar number, expression,
+#                    variable, misspelt duplicate), a missing keyword, keywords to a non-template, too many / too few modes; at top level and in a loop body.
+
+def _y_inc_cases(rng, n, tier):
+    faults = ["extra-keyword", "extra-keyword-misspelt", "missing-keyword", "extra-keyword", "too-many-modes", "too-few-modes", "keywords-to-non-template",
+              "extra-keyword-expression"]
+    for i in range(n):
+        fault = faults[i % len(faults)]
+        lname = rng.choice(["Prep", "MachZehnder", "Lib_1", "sub"])
+        pars = rng.sample(["alpha", "phi", "theta", "r", "x1"], rng.randint(1, 3)) if fault != "keywords-to-non-template" else []
+        k = rng.randint(1, 3) if fault != "too-few-modes" else rng.randint(2, 3)
+        ms = sorted(rng.sample(range(0, 6), k))
+        lib = ["name %s" % lname, "version 1.0", ""]
+        for j, m in enumerate(ms):
+            a = "{%s}" % pars[j % len(pars)] if pars else "0.%d" % rng.randint(1, 9)
+            lib.append("%s(%s) | %d" % (rng.choice(["Sgate", "Rgate", "Dgate"]), a, m))
+        for p in pars[len(ms):]:
+            lib.append("Zgate(2*{%s}) | %d" % (p, ms[0]))
+        if k > 1:
+            lib.append("BSgate(0.1, 0.2) | [%d, %d]" % (ms[0], ms[-1]))
+        val = lambda: rng.choice(["0.3", "2", "-1.5", "1e-2", "a"])
+        kw = ["%s=%s" % (p, val()) for p in pars]
+        nm = k
+        if fault == "extra-keyword":
+            kw.insert(rng.randint(0, len(kw)), "%s=%s" % (rng.choice(["zz", "r2", "gain", "k"]), val()))
+        elif fault == "extra-keyword-misspelt":
+            kw.append("%s=%s" % (pars[0].capitalize() if pars[0].capitalize() != pars[0] else pars[0] + "_", val()))
+        elif fault == "extra-keyword-expression":
+            kw.append("%s=%s" % (rng.choice(["zz", "gain"]), rng.choice(["2*a", "a + 1", "sqrt(2)", "pi/2", "-a"])))
+        elif fault == "missing-keyword":
+            kw.pop(rng.randrange(len(kw)))
+        elif fault == "too-many-modes":
+            nm = k + rng.randint(1, 2)
+        elif fault == "too-few-modes":
+            nm = k - 1
+        else:
+            kw = ["%s=%s" % (rng.choice(["zz", "phi"]), val())]
+        cm = rng.sample(range(0, 9), nm)
+        call = "%s%s | %s" % (lname, "(%s)" % ", ".join(kw) if kw else "", cm[0] if nm == 1 and rng.random() < 0.5 else "[%s]" % ", ".join(map(str, cm)))
+        sub = rng.choice(["", "", "lib/"])
+        main = ["name main", "version 1.0", 'include "%s%s.xbb"' % (sub, lname.lower()), "", "float a = 0.25"]
+        if rng.random() < 0.5:
+            main.append("Vac | 0")
+        if rng.random() < 0.3:
+            main += ["for int i in 0:2", "    Vac | i", "    " + call]
+            ctx = "loop-body"
+        else:
+            main.append(call)
+            ctx = "top"
+        if rng.random() < 0.5:
+            main.append("Vac | 1")
+        yield {"class": "include-call/%s/%s" % (fault, ctx), "input": {"files": {"%s%s.xbb" % (sub, lname.lower()): "\n".join(lib) + "\n", "main.xbb": "\n".join(main) + "\n"},
+                                                                      "fault": fault}}
+
+
+def _y_inc_check(case):
+    import os
+    import shutil
+    import tempfile
+    import blackbird
+    i = case["input"]
+    d = tempfile.mkdtemp(prefix="verif_incy_")
+    try:
+        for rel, text in i["files"].items():
+            path = os.path.join(d, rel)
+            os.makedirs(os.path.dirname(path), exist_ok=True)
+            with open(path, "w") as f:
+                f.write(text)
+        try:
+            p = blackbird.load(os.path.join(d, "main.xbb"))
+        except Exception:                                          # refused, as the property demands (any exception type)
+            return None
+        shown = "\n".join("### %s\n%s" % kv for kv in sorted(i["files"].items()))
+        return {"expected": "load raises an exception: the call of the included program is ill-formed (%s)\n%s" % (i["fault"], shown),
+                "actual": "a program was returned: %r" % (p.operations,)}
+    finally:
+        shutil.rmtree(d, ignore_errors=True)
+
+
+base.register(base.Family("include_y", ["C11"], _y_inc_cases, _y_inc_check, weight=0.08, bound="7 faults x templates of 1-3 parameters on 1-3 modes",
+                          rule="temp directory with main.xbb + included file; a call with wrong keyword arguments or a wrong number of modes is never turned into a program"))
+
+
+#  * tdm_y          (C15): p-arrays whose declaration contains template parameters (among the elements, or the whole array as one {x} with a
+#                    declared shape), used as arguments; references to p-arrays written inside brackets: (p1), phi=(p2), [p0, (p1)], ((p0)).
+
+def _y_tdm_cases(rng, n, tier):
+    for i in range(n):
+        typ = "tdm" + rng.choice(["", " (temporal_modes=2)", " (temporal_modes=3, copies=10)"])
+        lines = ["name %s" % rng.choice(["t", "tdm_prog", "prog_1"]), "version 1.0", "type " + typ, ""]
+        pn = rng.sample(["p0", "p1", "p2", "p12", "p007"], rng.randint(2, 3))
+        decl, pars = {}, set()
+        variant = ["parameter-among-elements", "whole-array-parameter", "reference-in-brackets"][i % 3]
+        for j, nm in enumerate(pn):
+            ty = rng.choice(["float", "float", "int"])
+            nr, nc = rng.choice([1, 1, 2]), rng.randint(2, 4)
+            grid = [[(rng.randint(1, 9) if ty == "int" else round(rng.uniform(0.1, 3), 2)) for _ in range(nc)] for _ in range(nr)]
+            cells = [[(str(v) if ty == "int" else repr(v)) for v in row] for row in grid]
+            if j == 0 and variant == "parameter-among-elements":
+                for (r, c) in rng.sample([(r, c) for r in range(nr) for c in range(nc)], rng.randint(1, 2)):
+                    p = rng.choice(["x", "ab", "theta_1", "y"])
+                    cells[r][c], grid[r][c] = "{%s}" % p, {"par": p}
+                    pars.add(p)
+                lines += FS.G.array_decl(ty, nm, cells, shape=rng.random() < 0.4)
+            elif j == 0 and variant == "whole-array-parameter":
+                p = rng.choice(["x", "ab", "w"])
+                lines += ["%s array %s[%d, %d] =" % (ty, nm, nr, nc), "    {%s}" % p]
+                grid = [[{"par": "%s_%d_%d" % (p, r, c)} for c in range(nc)] for r in range(nr)]
+                pars |= {"%s_%d_%d" % (p, r, c) for r in range(nr) for c in range(nc)}
+            else:
+                lines += FS.G.array_decl(ty, nm, cells, shape=rng.random() < 0.3)
+            decl[nm] = {"type": ty, "grid": grid}
+        lines.append("")
+        ops = []
+        br = (lambda s: rng.choice(["(%s)", "(%s)", "((%s))"]) % s) if variant == "reference-in-brackets" else (lambda s: s)
+        order = list(pn) + [rng.choice(pn) for _ in range(rng.randint(0, 2))]
+        rng.shuffle(order)
+        if pn[0] not in order[:2]:
+            order.insert(0, pn[0])
+        while order:
+            a = order.pop()
+            r = rng.random()
+            mode = rng.randint(0, 3)
+            if r < 0.4 or not order:
+                lines.append("%s(%s%s) | %d" % (rng.choice(["Rgate", "Sgate", "Mask"]), br(a), rng.choice(["", ", 0.5"]), mode))
+                ops.append({"args": [a], "kwargs": {}})
+            elif r < 0.7:
+                b = order.pop()
+                lines.append("%s(%s, %s=%s) | %d" % (rng.choice(["BSgate", "MeasureHomodyne"]), rng.choice([a, br(a)]), rng.choice(["phi", "k"]), br(b), mode))
+                ops.append({"args": [a], "kwargs": {"kw": b}})
+            else:
+                b = order.pop()
+                lines.append("G(y=[%s, %s]) | %d" % (rng.choice([a, br(a)]), br(b), mode))
+                ops.append({"args": [], "kwargs": {"kw": [a, b]}})
+        if pars and rng.random() < 0.4:
+            p = sorted(pars)[0]
+            lines.append("Dgate({%s}) | 1" % p) if variant != "whole-array-parameter" else None
+        vals = {p: (float(k) + 0.5) for k, p in enumerate(sorted(pars))}
+        yield {"class": "tdm/p-array/" + variant, "input": {"script": "\n".join(l for l in lines if l is not None) + "\n", "parrays": decl, "ops": ops,
+                                                              "parameters": sorted(pars), "values": vals}}
+
+
+def _y_tdm_check(case):
+    import numpy as np
+    import blackbird
+    i = case["input"]
+    try:
+        p = blackbird.loads(i["script"])
+    except Exception as e:
+        return {"expected": "the tdm script loads", "actual": base.describe_exc(e)}
+
+    def same(x, want):                                            # a name is a str; never compare arrays with ==
+        if isinstance(want, list):
+            return isinstance(x, list) and len(x) == len(want) and all(same(a, b) for a, b in zip(x, want))
+        return isinstance(x, str) and x == want
+
+    def ops_diff(prog, where):
+        for n, d in enumerate(i["ops"]):
+            if n >= len(prog.operations):
+                return {"expected": "%s: at least %d operations" % (where, len(i["ops"])), "actual": repr(prog.operations)}
+            o = prog.operations[n]
+            got = list(o.get("args", []))[:len(d["args"])]
+            if len(got) != len(d["args"]) or not all(same(x, w) for x, w in zip(got, d["args"])):
+                return {"expected": "%s: operation %d receives the p-array(s) by NAME: %r" % (where, n, d["args"]), "actual": repr(o)}
+            if d["kwargs"]:
+                kv = [v for k, v in o.get("kwargs", {}).items()]
+                want = d["kwargs"]["kw"]
+                if len(kv) != 1 or not same(kv[0], want):
+                    return {"expected": "%s: operation %d keyword receives the p-array(s) by NAME: %r" % (where, n, want), "actual": repr(o)}
+        return None
+
+    def arrays_diff(prog, where, vals):
+        for nm, d in i["parrays"].items():
+            a = prog.variables.get(nm)
+            g = d["grid"]
+            if not isinstance(a, np.ndarray) or a.shape != (len(g), len(g[0])):
+                return {"expected": "%s: variables[%r] is the declared %dx%d array" % (where, nm, len(g), len(g[0])), "actual": repr(a)}
+            for r, row in enumerate(g):
+                for c, x in enumerate(row):
+                    if isinstance(x, dict):
+                        if vals is None:
+                            ok = str(a[r, c]) == x["par"] and not isinstance(a[r, c], (int, float, str))
+                            want = "the parameter " + x["par"]
+                        else:
+                            want = vals[x["par"]]
+                            ok = base.kind(a[r, c]) in ("int", "float") and float(a[r, c]) == float(want)
+                    else:
+                        want = x
+                        ok = base.kind(a[r, c]) in ("int", "float") and float(a[r, c]) == float(x)
+                    if not ok:
+                        return {"expected": "%s: %s[%d, %d] is %r" % (where, nm, r, c, want), "actual": "%r in %r" % (a[r, c], a.tolist())}
+        return None
+    res = ops_diff(p, "loaded") or arrays_diff(p, "loaded", None)
+    if res:
+        return res
+    pars = set(i["parameters"])
+    if set(p.parameters) != pars or bool(p.is_template()) != bool(pars):
+        return {"expected": "free parameters %r (p-array names are never free parameters); is_template %r" % (sorted(pars), bool(pars)),
+                "actual": "%r, is_template %r" % (sorted(p.parameters), p.is_template())}
+    q = p
+    if pars:
+        try:
+            q = p(**i["values"])
+        except Exception as e:
+            return {"expected": "the tdm template instantiates with %r" % i["values"], "actual": base.describe_exc(e)}
+        res = ops_diff(q, "instance") or arrays_diff(q, "instance", i["values"])
+        if res:
+            return res
+        if q.parameters:
+            return {"expected": "instance has no free parameters", "actual": repr(sorted(q.parameters))}
+    try:
+        text = blackbird.dumps(q)
+        r = blackbird.loads(text)
+    except Exception as e:
+        return {"expected": "the %s serialises and re-loads" % ("instance" if pars else "program"), "actual": base.describe_exc(e)}
+    res = ops_diff(r, "re-loaded") or arrays_diff(r, "re-loaded", i["values"])
+    if res:
+        res["expected"] += "\nserialised text:\n" + text
+        return res
+    if r.programtype["name"] != "tdm" or r.parameters:
+        return {"expected": "re-loaded program is of type tdm without free parameters", "actual": "%r %r" % (r.programtype, sorted(r.parameters))}
+    return None
+
+
+base.register(base.Family("tdm_y", ["C15"], _y_tdm_cases, _y_tdm_check, weight=0.1, bound="2-3 p-arrays up to 2x4, 3 variants cycled",
+                          rule="p-array used as an argument (also written in brackets, also when its declaration holds template parameters) is delivered as its "
+                               "name; its array is kept under that name (after instantiation: with the values bound); serialise/re-load keeps names and arrays"))
+
+
+#  * digraph_y      (C16): SEVERAL conversions of one program object: the returned graph is taken apart by the caller (layer scheduling: peel
+#                    off the nodes without predecessors) or the program's operation list is edited in place (append / remove / retarget an
+#                    operation) between two conversions; every conversion must give the graph of the program as it is then.
+
+def _y_dg_cases(rng, n, tier):
+    from . import gen_prog as GP
+    out = 0
+    while out < n:
+        c = GP.gen_digraph_case(rng, tier)
+        ops = c["input"]["ops"]
+        if len(ops) < 2:
+            continue
+        steps = []
+        pool = sorted({m for o in ops for m in o["modes"]})
+        for _ in range(rng.randint(1, 3)):
+            k = [["peel-graph"], ["damage-graph"], ["append-op"], ["pop-op"], ["retarget-op"], ["peel-graph", "append-op"]][(out + len(steps)) % 6]
+            for how in k:
+                st = {"do": how}
+                if how == "append-op":
+                    st["op"] = {"op": rng.choice(["Sgate", "Vac", "MeasureX"]), "modes": rng.sample(pool, rng.randint(1, min(2, len(pool)))), "regs": []}
+                    st["args"] = rng.choice([None, [0.5], []])
+                elif how == "retarget-op":
+                    st["index"] = rng.randrange(len(ops))
+                    st["modes"] = rng.sample(range(0, 9), rng.randint(1, 2))
+                steps.append(st)
+        out += 1
+        yield {"class": "reconversion/" + "+".join(sorted({s["do"] for s in steps})), "input": {"script": c["input"]["script"], "ops": ops, "steps": steps}}
+
+
+def _y_dg_check(case):
+    import blackbird
+    from blackbird.utils import to_DiGraph
+    from . import fam_prog as FP
+    inp = case["input"]
+    desc = [dict(d) for d in inp["ops"]]
+    p = blackbird.loads(inp["script"])
+    if len(p.operations) != len(desc) or any(o["op"] != d["op"] or [int(m) for m in o["modes"]] != d["modes"] for o, d in zip(p.operations, desc)):
+        return {"class": "precondition/load-differs-from-description", "expected": desc, "actual": repr(p.operations)[:800]}
+    g = to_DiGraph(p)
+    res = FP.dg_graph_check(p, g, desc, inp["script"])
+    if res:
+        return res
+    for n, st in enumerate(inp["steps"]):
+        do = st["do"]
+        if do == "peel-graph":                                     # Kahn layering on the graph object the caller received
+            while len(g):
+                g.remove_nodes_from([v for v in list(g.nodes) if g.in_degree(v) == 0])
+        elif do == "damage-graph":
+            first = sorted(g.nodes)[0]
+            g.nodes[first]["name"] = "changed_by_caller"
+            g.add_edge(len(desc) + 5, first)
+            g.remove_node(sorted(g.nodes)[-2])
+        elif do == "append-op":
+            o = {"op": st["op"]["op"], "modes": list(st["op"]["modes"])}
+            if st["args"] is not None:
+                o["args"], o["kwargs"] = list(st["args"]), {}
+            p.operations.append(o)
+            desc.append(dict(st["op"]))
+        elif do == "pop-op" and len(desc) > 1:
+            p.operations.pop()
+            desc.pop()
+        elif do == "retarget-op":
+            k = st["index"] % len(desc)
+            p.operations[k]["modes"] = list(st["modes"])
+            desc[k] = dict(desc[k], modes=list(st["modes"]))
+        g = to_DiGraph(p)
+        res = FP.dg_graph_check(p, g, desc, inp["script"])
+        if res:
+            res["expected"] = "conversion after step %d (%s) of %r: %s" % (n, do, [s["do"] for s in inp["steps"]], res["expected"])
+            return res
+    return None
+
+
+base.register(base.Family("digraph_y", ["C16"], _y_dg_cases, _y_dg_check, weight=0.1, bound="scripts of 2-12 operations; 1-4 steps between conversions",
+                          rule="oracle of digraph applied to EVERY conversion of the same program object, after the caller took the previous graph apart or "
+                               "edited program.operations in place"))
+
+
+#  * history_y      (C12, C07): histories of loads over FILES in one fresh interpreter (replay/_history_driver.py): an included file that is
+#                    rewritten (other operations, now a template, other number of modes, now ungrammatical, removed) between two loads of the
+#                    same path; two projects with the same relative file names loaded by relative path from their own directories; an
+#                    operation spelled like a program that an EARLIER script included; the identical text / file loaded twice with the caller
+#                    modifying the first result in between; option-less `target X` / `type Y` declarations with such modifications.
+
+_Y_HIST_FUT = {}
+_Y_HIST_POOL = []
+
+
+def _y_hist_run(payload):
+    import os
+    import subprocess
+    import sys
+    env = dict(os.environ)
+    env["PYTHONPATH"] = os.pathsep.join(p for p in sys.path if p)
+    env["PYTHONHASHSEED"] = "0"
+    env["PYTHONDONTWRITEBYTECODE"] = "1"
+    p = subprocess.run([sys.executable, "-m", "replay._history_driver"], input=payload.encode(), stdout=subprocess.PIPE, stderr=subprocess.PIPE, env=env,
+                       timeout=300, cwd=os.path.dirname(os.path.dirname(os.path.abspath(__file__))))
+    out = p.stdout.decode("utf-8", "replace").strip().splitlines()
+    if p.returncode != 0 or not out:
+        raise RuntimeError("history driver failed (exit %d): %s" % (p.returncode, p.stderr.decode("utf-8", "replace")[-800:]))
+    import json
+    return json.loads(out[-1])
+
+
+def _y_hist_submit(req):
+    import json
+    from concurrent.futures import ThreadPoolExecutor
+    key = json.dumps(req, sort_keys=True)
+    if key not in _Y_HIST_FUT:
+        if not _Y_HIST_POOL:
+            _Y_HIST_POOL.append(ThreadPoolExecutor(12))
+        _Y_HIST_FUT[key] = _Y_HIST_POOL[0].submit(_y_hist_run, key)
+    return _Y_HIST_FUT[key]
+
+
+def _y_hist_requests(steps):
+    """the history itself and, per load, the same load alone in a pristine process with the files as they are at that moment"""
+    reqs = [{"steps": steps, "sharing": True}]
+    files, cwd = {}, None
+    for st in steps:
+        files.update(st.get("files") or {})
+        if st.get("cwd") is not None:
+            cwd = st["cwd"]
+        if "text" in st or "path" in st:
+            alone = {k: st[k] for k in ("text", "path", "how") if k in st}
+            alone["files"] = dict(files)
+            alone["cwd"] = cwd
+            reqs.append({"steps": [alone], "sharing": False})
+    return reqs
+
+
+def _y_lib(rng, name, k, params=(), shift=0):
+    ms = sorted(rng.sample(range(0, 6), k))
+    lines = ["name %s" % name, "version 1.0", ""]
+    gates = ["Sgate", "Rgate", "Dgate", "Zgate", "Xgate"]
+    for j, m in enumerate(ms):
+        a = "{%s}" % params[j % len(params)] if params else "0.%d" % rng.randint(1, 9)
+        lines.append("%s(%s) | %d" % (gates[(j + shift) % len(gates)], a, m))
+    for p in list(params)[len(ms):]:
+        lines.append("Kgate({%s}) | %d" % (p, ms[0]))
+    if k > 1:
+        lines.append("%s(0.%d, 0.2) | [%d, %d]" % (rng.choice(["BSgate", "MZgate"]), rng.randint(1, 9), ms[-1], ms[0]))
+    return "\n".join(lines) + "\n"
+
+
+def _y_hist_build(rng, variant):
+    nm = rng.choice(["Sub", "Lib1", "MachZehnder", "prep"])
+    k = rng.randint(1, 3)
+    cm = lambda kk: ("[%s]" % ", ".join(map(str, rng.sample(range(0, 9), kk)))) if kk > 1 or rng.random() < 0.5 else str(rng.randint(0, 8))
+    sub = rng.choice(["", "lib/", "a/b/"])
+    inc = "%s%s.xbb" % (sub, nm.lower())
+    main = lambda call, extra="": "name main\nversion 1.0\ninclude \"%s\"\n\nVac | 0\n%s\n%s" % (inc, call, extra)
+    if variant == "include-file-rewritten":
+        lib1 = _y_lib(rng, nm, k)
+        how2 = rng.choice(["other-operations", "other-operations", "now-a-template", "other-number-of-modes", "now-ungrammatical", "removed"])
+        lib2 = {"other-operations": _y_lib(rng, nm, k, shift=2), "now-a-template": _y_lib(rng, nm, k, params=["alpha"]),
+                "other-number-of-modes": _y_lib(rng, nm, k + 1), "now-ungrammatical": "name %s\nversion 1.0\n\nSgate(0.1 | 0\n" % nm, "removed": None}[how2]
+        m1 = main("%s | %s" % (nm, cm(k)))
+        m2 = m1 if rng.random() < 0.5 else main("%s | %s" % (nm, cm(k)), "Vac | 1\n")
+        style = rng.choice(["abs", "rel"])
+        d = rng.choice(["", "proj/"])
+        steps = [{"files": {d + "main.xbb": m1, d + inc: lib1}, "cwd": d or ".", "path": d + "main.xbb", "how": style},
+                 {"files": {d + "main2.xbb": m2, d + inc: lib2}, "path": d + "main2.xbb", "how": style, "mutate_earlier": rng.random() < 0.3}]
+        if rng.random() < 0.3:
+            steps.append({"files": {d + inc: lib1}, "path": d + "main.xbb", "how": style})
+        return "include-file-rewritten/" + how2, steps
+    if variant == "same-relative-names-in-two-directories":
+        libs = [_y_lib(rng, nm, k, shift=s) for s in (0, 2)]
+        dirs = rng.sample(["proj_one", "proj_two", "x/y", "other"], 2)
+        call = "%s | %s" % (nm, cm(k))
+        steps = []
+        for d, lib in zip(dirs, libs):
+            st = {"files": {d + "/main.xbb": main(call), d + "/" + inc: lib}, "cwd": d}
+            if rng.random() < 0.7:
+                st.update({"path": d + "/main.xbb", "how": "rel"})
+            else:
+                st["text"] = main(call)                              # loads(): include path relative to the working directory
+            steps.append(st)
+        if rng.random() < 0.3:
+            steps.append({"cwd": dirs[0], "path": dirs[0] + "/main.xbb", "how": "rel"})
+        return "same-relative-names-in-two-directories", steps
+    if variant == "operation-named-like-earlier-include":
+        lib = _y_lib(rng, nm, k, params=(["theta"] if rng.random() < 0.4 else []))
+        call = "%s%s | %s" % (nm, "(theta=0.3)" if "{theta}" in lib else "", cm(k))
+        later = rng.choice(["%s | %s" % (nm, cm(k)), "%s(0.5) | %s" % (nm, cm(1)), "%s | %s" % (nm, cm(k + 1)), "%s(theta=0.1) | %s" % (nm, cm(k))])
+        steps = [{"files": {"main.xbb": main(call), inc: lib}, "cwd": ".", "path": "main.xbb", "how": rng.choice(["abs", "rel"])},
+                 {"text": "name later\nversion 1.0\n\nSgate(0.1) | 0\n%s\n" % later}]
+        if rng.random() < 0.4:
+            steps.insert(1, {"text": "name between\nversion 1.0\n\nVac | 2\n"})
+        return "operation-named-like-earlier-include", steps
+    if variant == "same-script-twice-modified-between":
+        body = rng.choice(["float alpha = 0.5\nSgate(alpha, 2) | 0\nBSgate(phi=[1, 2]) | [0, 1]\n", "target X8_01 (shots=10)\n\nint array A =\n    1, 2\nG(A, k=3) | 2\n",
+                           "type tdm (temporal_modes=2)\n\nfloat array p0 =\n    1, 2\nRgate(p0) | 1\n", "Sgate({a}, 1) | 0\nDgate(y=[{b}, 2]) | 1\n"])
+        text = "name twice\nversion 1.0\n" + body
+        if rng.random() < 0.5:
+            steps = [{"text": text}, {"text": text, "mutate_earlier": True}]
+        else:
+            steps = [{"files": {"s.xbb": text}, "cwd": ".", "path": "s.xbb", "how": rng.choice(["abs", "rel"])}, {"path": "s.xbb", "how": "abs", "mutate_earlier": True}]
+            steps[1]["how"] = steps[0]["how"]
+        if rng.random() < 0.4:
+            steps.append(dict(steps[1]))
+        return "same-script-twice-modified-between", steps
+    # option-less declarations
+    dev, ty = rng.choice(["X8_01", "fock", "gaussian"]), rng.choice(["tdm", "custom", "batch_1"])
+    heads = ["target %s\n" % dev, "type %s\n" % ty, "target %s\ntype %s\n" % (dev, ty), "target %s\ntype %s (copies=1)\n" % (dev, ty)]
+    texts = ["name o%d\nversion 1.0\n%s\nVac | %d\n" % (j, rng.choice(heads), j) for j in range(rng.randint(2, 3))]
+    steps = [{"text": t, "mutate_earlier": j > 0} for j, t in enumerate(texts)]
+    return "option-less-target-or-type-modified-between", steps
+
+
+_Y_HIST_VARIANTS = ["include-file-rewritten", "same-relative-names-in-two-directories", "operation-named-like-earlier-include", "same-script-twice-modified-between",
+                    "option-less-declarations", "include-file-rewritten", "same-relative-names-in-two-directories"]
+
+
+def _y_hist_cases(rng, n, tier):
+    n = min(n, 21 if tier == "quick" else 140)
+    cases = []
+    for i in range(n):
+        cls, steps = _y_hist_build(rng, _Y_HIST_VARIANTS[i % len(_Y_HIST_VARIANTS)])
+        cases.append({"class": cls, "input": {"steps": steps}})
+    for c in cases:
+        for r in _y_hist_requests(c["input"]["steps"]):
+            _y_hist_submit(r)
+    return cases
+
+
+def _y_hist_check(case):
+    steps = case["input"]["steps"]
+    reqs = _y_hist_requests(steps)
+    futs = [_y_hist_submit(r) for r in reqs]
+    seq = futs[0].result()
+    shown = "\n".join("--- step %d: %s" % (k, {kk: vv for kk, vv in st.items()}) for k, st in enumerate(steps))[:2500]
+    k = 0
+    for n, st in enumerate(steps):
+        if "text" not in st and "path" not in st:
+            continue
+        alone = futs[1 + k].result()["outcomes"][0]
+        got = seq["outcomes"][k]
+        k += 1
+        if got != alone:
+            return {"expected": "load #%d of the history (step %d) has the outcome it has in a pristine process with the same files and working directory: %s\n%s"
+                                % (k - 1, n, FS._short(alone), shown), "actual": "after %d earlier load(s): %s" % (k - 1, FS._short(got))}
+    if seq["sharing"]:
+        return {"expected": "programs returned by different loads share no mutable state\n" + shown, "actual": "; ".join(seq["sharing"][:4])}
+    return None
+
+
+base.register(base.Family("history_y", ["C12", "C07"], _y_hist_cases, _y_hist_check, weight=0.1, parallel=False,
+                          bound="histories of 2-3 loads (load by absolute / relative path, loads of text) over a private directory tree; quick tier: at most 21 histories",
+                          rule="oracle of history: every load == the same load alone in a fresh interpreter with the files and working directory as they are at "
+                               "that moment (exact image / exception type + message); results share no mutable object; 5 variants cycled"))
+
+
+#  * include_sym    (C07): templates that include templates (depth 2-3) and hand their own parameters on under the CALLEE's names in another
+#                    arrangement (swap, shift, identity, fresh names, constants, simple expressions), where the callee's arguments depend on two
+#                    or three of its parameters; applied on shuffled modes.  Oracle: inlining by own evaluation of the written expressions.
+
+def _sym_expr(rng, ps):
+    P = [["par", p] for p in ps]
+    c = lambda: ["num", rng.choice(["2", "3", "0.5", "4", "1.5"])]
+    if len(P) == 1:
+        return rng.choice([P[0], ["mul", c(), P[0]], ["add", P[0], c()], ["sub", c(), P[0]]])
+    a, b = P[0], P[1]
+    forms = [["sub", a, ["mul", c(), b]], ["add", ["mul", a, b], b], ["div", b, ["add", a, ["num", "7"]]], ["sub", ["pow", a, ["num", "2"]], b],
+             ["sub", ["mul", c(), a], ["div", b, c()]], ["mul", a, ["add", b, c()]]]
+    e = rng.choice(forms)
+    if len(P) > 2:
+        e = rng.choice([["add", e, ["mul", c(), P[2]]], ["sub", ["mul", e, P[2]], a]])
+    return e
+
+
+def _sym_build(rng):
+    G = FS.G
+    pool = ["a", "b", "c", "theta", "phi"]
+    depth = rng.choice([2, 2, 3])
+    libs = []
+    for lv in range(depth):
+        name = ["Inner", "Mid", "Outer"][lv] if depth == 3 else ["Inner", "Outer"][lv]
+        params = rng.sample(pool[:3] if rng.random() < 0.7 else pool, rng.randint(2, 3))
+        k = rng.randint(1, 3) if not libs else rng.randint(len(libs[-1]["modes"]), 3)
+        modes = sorted(rng.sample(range(0, 7), k))
+        ops, used = [], set()
+        def plain_op():
+            ps = rng.sample(params, rng.randint(1, len(params)))
+            used.update(ps)
+            args = [_sym_expr(rng, ps)] + ([["num", "0.25"]] if rng.random() < 0.3 else [])
+            kw = {"phi": _sym_expr(rng, rng.sample(params, 2))} if rng.random() < 0.3 else {}
+            ops.append({"op": rng.choice(["BSgate", "Dgate", "Rgate", "Sgate"]), "modes": rng.sample(modes, rng.randint(1, min(2, k))), "args": args, "kwargs": kw})
+        for _ in range(rng.randint(1, 2)):
+            plain_op()
+        if libs:
+            callee = libs[-1]
+            how = rng.choice(["swap", "shift", "swap", "identity", "fresh", "mixed"])
+            cp = callee["params"]
+            mine = list(params)
+            # every callee parameter gets a DIFFERENT caller parameter (or a constant): two callee parameters fed from one caller parameter
+            # let SymPy cancel float-coefficient terms before binding (int where the inlined text gives a float) -- reported, kept out here
+            if how in ("identity", "fresh"):
+                spare = [q for q in mine if how == "fresh" or q not in cp]
+                rng.shuffle(spare)
+                src = [p if (how == "identity" and p in mine) else (spare.pop() if spare else None) for p in cp]
+            else:
+                common = [p for p in cp if p in mine]
+                base_ = common if len(common) >= 2 else mine
+                rot = base_[1:] + base_[:1] if how == "shift" else list(reversed(base_))
+                m = dict(zip(base_, rot))
+                spare = [q for q in mine if q not in m.values()]
+                rng.shuffle(spare)
+                src = [m[p] if p in m else (spare.pop() if spare else None) for p in cp]
+            seen = set()
+            for j, q in enumerate(src):
+                if q in seen:
+                    src[j] = None
+                seen.add(q)
+            bind = {}
+            for p, q in zip(cp, src):
+                r = rng.random()
+                if q is None or (how == "mixed" and r < 0.3):
+                    bind[p] = ["num", rng.choice(["0.5", "2", "3"])]
+                elif r < 0.15:
+                    bind[p] = ["mul", ["num", "2"], ["par", q]]
+                else:
+                    bind[p] = ["par", q]
+            used.update(x for e in bind.values() for x in G.leaves(e, "par"))
+            ops.insert(rng.randint(0, len(ops)), {"call": callee["name"], "modes": rng.sample(modes, len(callee["modes"])), "bind": bind, "how": how})
+        while set(params) - used:
+            plain_op()
+        libs.append({"name": name, "params": params, "modes": sorted({m for o in ops for m in o["modes"]}), "ops": ops, "file": "%s%s.xbb" % (rng.choice(["", "lib/"]), name.lower())})
+    top = libs[-1]
+    # values are non-integral floats: with integer values SymPy's cancellation of float constants ((0.25 - b)*2 - 0.5 -> -2*b) turns a value the
+    # inlined text computes as a float into an int (numerically equal; reported, kept out of this class)
+    vals = dict(zip(top["params"], rng.sample([0.5, 2.5, 1.25, -1.5, 0.75, 3.5, 10.5, -0.25], len(top["params"]))))
+    main_ops = [{"call": top["name"], "modes": rng.sample(range(0, 9), len(top["modes"])), "bind": {p: ["num", G.fmt_num(v)] for p, v in vals.items()}}]
+    if rng.random() < 0.4:
+        main_ops.insert(rng.randint(0, 1), {"op": "Vac", "modes": [rng.randint(0, 8)], "args": None, "kwargs": None})
+    how = "+".join(sorted({o["how"] for l in libs for o in l["ops"] if "call" in o}))
+    return {"class": "nested-template/depth%d/forwarding-%s" % (depth, how), "input": {"libs": libs, "main": main_ops}}
+
+
+def _sym_files(inp):
+    import posixpath
+    G = FS.G
+    libs = {l["name"]: l for l in inp["libs"]}
+
+    def line(o):
+        m = str(o["modes"][0]) if len(o["modes"]) == 1 else "[%s]" % ", ".join(map(str, o["modes"]))
+        if "call" in o:
+            return "%s(%s) | %s" % (o["call"], ", ".join("%s=%s" % (k, G.show(e)) for k, e in o["bind"].items()), m)
+        if o["args"] is None:
+            return "%s | %s" % (o["op"], m)
+        return "%s(%s) | %s" % (o["op"], ", ".join([G.show(e) for e in o["args"]] + ["%s=%s" % (k, G.show(e)) for k, e in o["kwargs"].items()]), m)
+    files = {}
+    for l in inp["libs"]:
+        lines = ["name %s" % l["name"], "version 1.0"]
+        for c in sorted({o["call"] for o in l["ops"] if "call" in o}):
+            lines.append('include "%s"' % posixpath.relpath(libs[c]["file"], posixpath.dirname(l["file"]) or "."))
+        files[l["file"]] = "\n".join(lines + [""] + [line(o) for o in l["ops"]]) + "\n"
+    top = inp["libs"][-1]
+    files["main.xbb"] = "\n".join(["name main", "version 1.0", 'include "%s"' % top["file"], ""] + [line(o) for o in inp["main"]]) + "\n"
+    return files
+
+
+def _sym_expected(inp):
+    G = FS.G
+    libs = {l["name"]: l for l in inp["libs"]}
+
+    def expand(ops, env, ren):
+        out = []
+        for o in ops:
+            modes = [ren[m] for m in o["modes"]]
+            if "call" in o:
+                lib = libs[o["call"]]
+                out += expand(lib["ops"], {p: G.ev(e, env)[0] for p, e in o["bind"].items()}, dict(zip(sorted(lib["modes"]), modes)))
+            elif o["args"] is None:
+                out.append({"op": o["op"], "modes": modes})
+            else:
+                out.append({"op": o["op"], "modes": modes, "args": [G.ev(e, env)[0] for e in o["args"]], "kwargs": {k: G.ev(e, env)[0] for k, e in o["kwargs"].items()}})
+        return out
+    ident = {m: m for m in range(0, 64)}
+    return expand(inp["main"], {}, ident)
+
+
+def _sym_cases(rng, n, tier):
+    out = 0
+    while out < n:
+        c = _sym_build(rng)
+        try:
+            _sym_expected(c["input"])
+        except FS.G.Unfit:
+            continue
+        out += 1
+        yield c
+
+
+def _sym_check(case):
+    import os
+    import shutil
+    import tempfile
+    import types
+    import blackbird
+    inp = case["input"]
+    files = _sym_files(inp)
+    d = os.path.realpath(tempfile.mkdtemp(prefix="verif_incs_"))
+    try:
+        for rel, text in files.items():
+            path = os.path.join(d, rel)
+            os.makedirs(os.path.dirname(path), exist_ok=True)
+            with open(path, "w") as f:
+                f.write(text)
+        shown = "\n".join("### %s\n%s" % kv for kv in sorted(files.items()))
+        try:
+            p = blackbird.load(os.path.join(d, "main.xbb"))
+        except Exception as e:
+            return {"expected": "the include tree loads\n" + shown, "actual": base.describe_exc(e).replace(d, "@ROOT@")}
+        ops = _sym_expected(inp)
+        none = {"name": None, "options": {}}
+        exp = types.SimpleNamespace(name="main", version="1.0", target=none, programtype=none, parameters=set(), operations=ops, modes={m for o in ops for m in o["modes"]})
+        diff = base.program_diff(exp, p, exact=False, rel=1e-9)
+        if diff:
+            return {"expected": "the textually inlined program (parameters bound simultaneously, call by call): %r\n%s" % (ops, shown), "actual": diff}
+        return None
+    finally:
+        shutil.rmtree(d, ignore_errors=True)
+
+
+base.register(base.Family("include_sym", ["C07"], _sym_cases, _sym_check, weight=0.15, bound="2-3 nested templates of 2-3 parameters each on 1-3 modes; 6 two/three-parameter forms",
+                          rule="abstract tree; oracle = inlining computed from the description with exact Python arithmetic (rel 1e-9)"))
+
+
+#  * hashseed_y     (C19): bundles of include trees / scripts whose content passes through sets of NAMES: included templates with several
+#                    parameters in one (non-symmetric) argument, bound by keyword at the call; the same with stray positional values next to
+#                    the keywords; included programs whose arguments are expressions over several measured registers, applied to shifted or
+#                    swapped modes; tdm scripts with several p-arrays and further variables (order of the declarations in the dumps text).
+#  * include_own_modes (C19, C07): an included program applied to a PERMUTATION OF ITS OWN modes (e.g. a program on {7, 8} applied to [8, 7]),
+#                    for mode sets whose iteration order is not the increasing one.
+
+def _hsy_item(rng, kind):
+    pnames = rng.sample(["alpha", "beta", "theta", "phi", "a", "ab", "r", "x1", "gam"], rng.randint(2, 4))
+    P = lambda: "{%s}" % rng.choice(pnames)
+    lname = rng.choice(["Shift", "MachZehnder", "Lib1", "prep"])
+    k = rng.randint(1, 3)
+    ms = sorted(rng.sample(range(0, 5), k))
+    mtxt = lambda m: str(m[0]) if len(m) == 1 else "[%s]" % ", ".join(map(str, m))
+    if kind in ("multi-param-template", "positional-next-to-keywords"):
+        a, b = rng.sample(pnames, 2)
+        forms = ["{%s} - 2*{%s}", "{%s}/{%s}", "{%s}**2 - {%s}", "3*{%s} + {%s}/7", "{%s}*{%s} + {%s}", "{%s} - {%s}*{%s}"]
+        lines = ["name %s" % lname, "version 1.0", ""]
+        used = set()
+        for j in range(rng.randint(2, 4)):
+            f = rng.choice(forms if j else forms[:4])
+            ps = (rng.sample(pnames, 2) if f.count("%s") == 2 else [rng.choice(pnames)] + rng.sample(pnames, 2)) if j else [a, b]
+            used.update(ps)
+            arg = f % tuple(ps)
+            extra = ", k=%s" % (rng.choice(forms[:4]) % tuple(rng.sample(pnames, 2))) if rng.random() < 0.4 else ""
+            lines.append("%s(%s%s) | %s" % (rng.choice(["BSgate", "Dgate", "Rgate", "Sgate"]), arg, extra, mtxt(rng.sample(ms, rng.randint(1, min(2, k))))))
+        for p in pnames:
+            if "{%s}" % p not in "\n".join(lines):
+                lines.append("Zgate({%s}) | %d" % (p, ms[0]))
+        for m in ms:
+            if not any(("| %d" % m) in l or ("%d]" % m) in l or ("[%d," % m) in l for l in lines):
+                lines.append("Vac | %d" % m)
+        vals = rng.sample(["8", "3", "0.54", "0.1", "2.5", "-1", "7", "0.25"], len(pnames))
+        kw = ["%s=%s" % (p, v) for p, v in zip(pnames, vals)]
+        rng.shuffle(kw)
+        if kind == "positional-next-to-keywords":
+            kw = [rng.choice(["0.3", "5", "-2.5"]) for _ in range(rng.randint(1, 2))] + kw
+        call = "%s(%s) | %s" % (lname, ", ".join(kw), mtxt(rng.sample(range(0, 8), k)))
+        sub = rng.choice(["", "lib/"])
+        main = ["name main", "version 1.0", 'include "%s%s.xbb"' % (sub, lname.lower()), "", "Vac | 0", call]
+        return {"class": "include/" + kind, "files": {"%s%s.xbb" % (sub, lname.lower()): "\n".join(lines) + "\n", "main.xbb": "\n".join(main) + "\n"}, "main": "main.xbb"}
+    if kind == "register-expressions-on-shifted-modes":
+        k = rng.randint(2, 4)
+        ms = list(range(k)) if rng.random() < 0.6 else sorted(rng.sample(range(0, 6), k))
+        Q = lambda: "q%d" % rng.choice(ms)
+        lines = ["name %s" % lname, "version 1.0", ""] + ["%s | %d" % (rng.choice(["MeasureX", "MeasureP", "MeasureHomodyne(phi=0.5)"]), m) for m in ms[:-1]]
+        for _ in range(rng.randint(1, 3)):
+            r1, r2 = rng.sample(ms, 2)
+            f = rng.choice(["q%d - 2*q%d" % (r1, r2), "q%d*q%d + q%d" % (r1, r2, r2), "q%d/(q%d + 3)" % (r2, r1), "2*q%d + 3*q%d - %s" % (r1, r2, Q())])
+            kwd = ", phi=q%d - q%d" % (r2, r1) if rng.random() < 0.4 else ""
+            lines.append("%s(%s%s) | %d" % (rng.choice(["Dgate", "Zgate", "Xgate"]), f, kwd, ms[-1]))
+        how = rng.choice(["shift", "shift", "swap", "permutation"])
+        if how == "shift":
+            cm = ms[1:] + ms[:1]
+        elif how == "swap":
+            cm = list(ms)
+            cm[0], cm[1] = cm[1], cm[0]
+        else:
+            cm = rng.sample(ms, k)
+        main = ["name main", "version 1.0", 'include "%s.xbb"' % lname.lower(), "", "%s | %s" % (lname, mtxt(cm))]
+        if rng.random() < 0.3:
+            main.append("%s | %s" % (lname, mtxt([m + 10 for m in ms])))
+        return {"class": "include/register-expressions-on-%s-modes" % ("shifted" if how == "shift" else "swapped" if how == "swap" else "permuted"),
+                "files": {"%s.xbb" % lname.lower(): "\n".join(lines) + "\n", "main.xbb": "\n".join(main) + "\n"}, "main": "main.xbb"}
+    # tdm with several p-arrays and further variables
+    lines = ["name %s" % rng.choice(["tdm_prog", "t"]), "version 1.0", "type tdm (temporal_modes=%d)" % rng.randint(2, 3), ""]
+    pn = rng.sample(["p0", "p1", "p2", "p3", "p12", "p007", "p5"], rng.randint(2, 5))
+    other = rng.sample(["alpha", "n", "B", "zz", "U_1"], rng.randint(0, 3))
+    decls = [(nm, True) for nm in pn] + [(nm, False) for nm in other]
+    rng.shuffle(decls)
+    for nm, isp in decls:
+        if isp or nm in ("B", "U_1"):
+            ty = rng.choice(["float", "int"])
+            lines += ["%s array %s =" % (ty, nm), "    " + ", ".join(str(rng.randint(0, 9)) if ty == "int" else "%d.%d" % (rng.randint(0, 9), rng.randint(0, 9)) for _ in range(rng.randint(2, 4)))]
+        else:
+            lines.append("%s %s = %s" % (("int", nm, str(rng.randint(1, 9))) if nm == "n" else ("float", nm, "0.%d" % rng.randint(1, 9))))
+    lines.append("")
+    for nm in pn:
+        lines.append("%s(%s) | %d" % (rng.choice(["Sgate", "Rgate", "BSgate"]), rng.choice([nm, "%s, 0.5" % nm, "0.1, phi=%s" % nm]), rng.randint(0, 2)))
+    return {"class": "tdm/several-p-arrays", "script": "\n".join(lines) + "\n"}
+
+
+_HSY_KINDS = ["multi-param-template", "positional-next-to-keywords", "register-expressions-on-shifted-modes", "tdm"]
+
+
+def _hsy_cases(rng, n, tier):
+    thorough = tier != "quick"
+    for _ in range(min(n, 6 if thorough else 2)):
+        items = [_hsy_item(rng, _HSY_KINDS[j % 4]) for j in range(24 if thorough else 16)]
+        seeds = sorted(rng.sample(range(1, 100000), 12 if thorough else 5))
+        yield {"class": "+".join(sorted({it["class"].split("/")[0] for it in items})), "input": {"items": items, "seeds": seeds}}
+
+
+def _hsy_check(case):
+    from . import fam_prog as FP
+    return FP.hs_check(case)
+
+
+base.register(base.Family("hashseed_y", ["C19"], _hsy_cases, _hsy_check, parallel=False, weight=0.3,
+                          bound="quick: 2 bundles x 16 items x 5 PYTHONHASHSEED values; thorough: 6 x 24 x 12",
+                          rule="oracle of hashseed: one canonical description (dumps text, operations, transforms bound by register, parameters, variables) for all seeds"))
+
+
+def _own_modes_cases(rng, n, tier):
+    from . import gen_prog as GP
+    pool = list(range(0, 10)) + [15, 16, 17, 24, 31, 32, 33, 64]
+    for i in range(n):
+        k = rng.choice([2, 2, 2, 3])
+        while True:
+            ms = rng.sample(pool, k)
+            if max(ms) >= 8 or i % 2:
+                break
+        params = rng.sample(["theta", "phi", "a"], rng.randint(1, 2)) if rng.random() < 0.4 else []
+        lib = GP.gen_lib(rng, rng.choice(GP.LIB_NAMES), ms, params, [], 1)
+        lib.update({"dir": rng.choice(["", "sub"]), "file": "lib_0.xbb", "includes": []})
+        own = list(lib["modeset"])
+        perms = [list(reversed(own)), own[1:] + own[:1], rng.sample(own, len(own))]
+        ops = []
+        for cm in perms[:rng.randint(1, 3)]:
+            ops.append({"call": lib["name"], "modes": cm, "bind": {p: {"const": rng.choice(["0.54", "0.1", "2"])} for p in lib["params"]}})
+            if rng.random() < 0.3:
+                ops.append({"op": "Vac", "modes": [rng.choice(own)], "args": None, "kwargs": None})
+        inp = {"libs": [lib], "main": {"dir": "", "file": "main.xbb", "name": "test_include", "version": "0.0", "includes": [{"lib": lib["name"], "style": "rel"}], "ops": ops,
+                                       "loop_call": None}, "nest_styles": {lib["name"]: {}}, "cwd": "unrelated", "load": "abs", "negative": None}
+        yield {"class": "own-modes-permuted/%d-modes" % len(own), "input": inp}
+
+
+def _own_modes_check(case):
+    from . import fam_prog as FP
+    return FP.inc_check(case)
+
+
+base.register(base.Family("include_own_modes", ["C19", "C07"], _own_modes_cases, _own_modes_check, weight=0.1,
+                          bound="programs on 2-3 modes out of 0..9, 15-17, 24, 31-33, 64, applied 1-3 times to permutations of exactly these modes",
+                          rule="oracle of include_inline (inlining with the modes, in increasing order, renamed to the modes listed at the call): the loaded content must not "
+                               "depend on the order in which the SET of modes happens to be iterated"))
